@@ -175,6 +175,55 @@ def _section_tables():
     return names, rows, samples, ("place_module" in pip_src or "is_in_stdlib" in pip_src)
 
 
+def _edge_sites():
+    """Where the edges of the import graph are made: per import visitor of RootContextBuilder the
+    keyword arguments of its `make_import_symbol(...)` call and the statements that compute the
+    module of a relative import; the bodies of `Import._module_name_and_spec` / `module_name`."""
+    import rattr.models.context._root_context as RC
+    from rattr.models.symbol import Import
+    tree = ast.parse(inspect.getsource(RC))
+    cls = next(n for n in tree.body if isinstance(n, ast.ClassDef) and n.name == "RootContextBuilder")
+    rows = []
+    for fn in cls.body:
+        if not isinstance(fn, ast.FunctionDef) or fn.name not in ("visit_Import", "visit_named_import", "visit_relative_import",
+                                                                   "visit_starred_import", "visit_starred_relative_import"):
+            continue
+        for node in ast.walk(fn):
+            if isinstance(node, ast.Assign) and isinstance(node.value, ast.Call) and \
+                    getattr(node.value.func, "id", "") in ("derive_absolute_module_name", "derive_module_name_from_path"):
+                rows.append(f"{fn.name}:{_src(node)}")
+            if isinstance(node, ast.Call) and getattr(node.func, "id", "") == "make_import_symbol":
+                rows += [f"{fn.name}:{kw.arg}={_src(kw.value)}" for kw in node.keywords]
+    props = []
+    for name in ("_module_name_and_spec", "module_name"):
+        f = getattr(Import, name).fget
+        props.append(f"{name}:" + "; ".join(_body(f)))
+    return rows, props
+
+
+def _derive_abs_table():
+    """`derive_absolute_module_name` EVALUATED (the undecorated function, `current_file` set through
+    `enter_file`) on a grid: __init__.py / module x base of 1..5 components x no / one / dotted target
+    x level 0..5 (levels beyond the top-level package included)."""
+    import rattr.module_locator.util as U
+    from rattr.config.state import enter_file
+    import impl
+    impl.reset_config()
+    fn = U.derive_absolute_module_name.__wrapped__
+    comps = ["pa", "pb", "pc", "pd", "pe"]
+    rows = []
+    for is_init in (False, True):
+        for d in range(1, 6):
+            base = ".".join(comps[:d])
+            path = "/".join(comps[:d]) + ("/__init__.py" if is_init else ".py")
+            for target in (None, "x", "x.y"):
+                for level in range(0, 6):
+                    with enter_file(path):
+                        r = fn(base, target, level)
+                    rows.append((is_init, base, target, level, r))
+    return rows
+
+
 def tables():
     import rattr.analyser.file as F
     import rattr.results._find_call_target as R
@@ -208,6 +257,16 @@ def tables():
         f"def isInPipConsultsIsort : Bool := {lbool(_SEC[3])}",
         "/-- body of `is_in_stdlib` -/",
         f"def isInStdlibBody : List String := {llist(_body(U.is_in_stdlib))}",
+        "/-- `derive_absolute_module_name`, statement by statement -/",
+        f"def deriveAbsBody : List String := {llist(_scan_locate(getattr(U.derive_absolute_module_name, '__wrapped__', U.derive_absolute_module_name)))}",
+        "/-- `derive_absolute_module_name` evaluated: (current file is an __init__.py, base, target, level, result) -/",
+        "def deriveAbsTable : List (Bool × String × Option String × Nat × String) := "
+        + llist(_derive_abs_table(), lambda r: f"({lbool(r[0])}, {lstr(r[1])}, "
+                + ("none" if r[2] is None else f"some {lstr(r[2])}") + f", {r[3]}, {lstr(r[4])})"),
+        "/-- the import visitors: arguments of `make_import_symbol`, how the module of a relative import is computed -/",
+        f"def edgeSites : List String := {llist(_edge_sites()[0])}",
+        "/-- `Import._module_name_and_spec` / `Import.module_name` -/",
+        f"def importModuleName : List String := {llist(_edge_sites()[1])}",
         "/-- `find_module_in_path`, statement by statement -/",
         f"def locateOps : List String := {llist(_scan_locate(L.find_module_in_path))}",
     ]
